@@ -115,7 +115,17 @@ func (m *Machine) invokeValue(th *Thread, fnv Value, args []Value, dest ssa.Valu
 	}
 	// 3. no-op summaries by package prefix
 	if m.isNoop(fn) {
-		deliver(m.noopResult(fn))
+		res := m.noopResult(fn)
+		// a logging helper that derives a context (xlog.NewContext) hands its parent back
+		if rt := fn.Signature.Results(); rt.Len() == 1 && rt.At(0).Type().String() == "context.Context" {
+			for i, p := range fn.Params {
+				if i < len(args) && p.Type().String() == "context.Context" {
+					res = args[i]
+					break
+				}
+			}
+		}
+		deliver(res)
 		return nil
 	}
 	if fn.Blocks == nil {
